@@ -6,6 +6,7 @@ import (
 	"fmt"
 	"go/ast"
 	"go/constant"
+	"go/token"
 	"go/types"
 	"strings"
 )
@@ -313,25 +314,9 @@ func c03Guard(p *Prog, r *Report) {
 		return
 	}
 	info := fi.Pkg.TypesInfo
-	// the assignment of ErrTxSerialization and its controlling if
-	var ifs *ast.IfStmt
-	ast.Inspect(fi.Decl.Body, func(x ast.Node) bool {
-		if s, ok := x.(*ast.IfStmt); ok {
-			for _, b := range s.Body.List {
-				if as, ok := b.(*ast.AssignStmt); ok && len(as.Rhs) == 1 && exprObjKey(info, as.Rhs[0]) == "fs_db.ErrTxSerialization" {
-					ifs = s
-				}
-				if rs, ok := b.(*ast.ReturnStmt); ok {
-					for _, e := range rs.Results {
-						if strings.Contains(valueKey(info, e), "fs_db.ErrTxSerialization") {
-							ifs = s
-						}
-					}
-				}
-			}
-		}
-		return true
-	})
+	// the assignment / return of ErrTxSerialization and its controlling if (or the if that raises the flag
+	// under which it is returned)
+	ifs := conflictIf(info, fi.Decl.Body)
 	cons := kUpdateTx + "#conflict-guard"
 	if ifs == nil {
 		// the guard may have been extracted into a package-local helper: evaluate the helper as a whole
@@ -678,11 +663,61 @@ func c03AfterConflict(p *Prog, r *Report) {
 		}
 	}
 	r.Check(okPre, "C03.f", kUpdateTx+"#discard-on-failure", p.pos(f.Nodes[deferNode[0]].Ast), "hand-over registered before the first pop", "versions can be popped before the deferred hand-over is registered: an early return loses them")
-	// disarm
+	// disarm: files = nil, or a boolean flag that the deferred hand-over tests (if !published { append })
 	var disarm []int
 	for _, n := range f.Nodes {
 		if as, ok := n.Ast.(*ast.AssignStmt); ok && len(as.Lhs) == 1 && len(as.Rhs) == 1 && objOf(info, as.Lhs[0]) == filesObj && isNilIdent(info, as.Rhs[0]) {
 			disarm = append(disarm, n.ID)
+		}
+	}
+	if len(disarm) == 0 {
+		var flag types.Object
+		negated := false
+		for _, dn := range deferNode {
+			ds, _ := f.Nodes[dn].Ast.(*ast.DeferStmt)
+			if ds == nil {
+				continue
+			}
+			ast.Inspect(ds, func(x ast.Node) bool {
+				ifs, ok := x.(*ast.IfStmt)
+				if !ok {
+					return true
+				}
+				appends := false
+				ast.Inspect(ifs.Body, func(y ast.Node) bool {
+					if c, ok := y.(*ast.CallExpr); ok {
+						if id, ok := c.Fun.(*ast.Ident); ok && id.Name == "append" && c.Ellipsis.IsValid() {
+							appends = true
+						}
+					}
+					return true
+				})
+				if !appends {
+					return true
+				}
+				cond := ast.Unparen(ifs.Cond)
+				if u, ok := cond.(*ast.UnaryExpr); ok && u.Op == token.NOT {
+					cond, negated = ast.Unparen(u.X), true
+				}
+				if o := objOf(info, cond); o != nil {
+					if bt, ok := o.Type().Underlying().(*types.Basic); ok && bt.Kind() == types.Bool {
+						flag = o
+					}
+				}
+				return true
+			})
+		}
+		if flag != nil {
+			for _, n := range f.Nodes {
+				as, ok := n.Ast.(*ast.AssignStmt)
+				if !ok || len(as.Lhs) != 1 || len(as.Rhs) != 1 || objOf(info, as.Lhs[0]) != flag {
+					continue
+				}
+				// the assignment that switches the hand-over off: flag = true for "if !flag", false for "if flag"
+				if tv, ok := info.Types[as.Rhs[0]]; ok && tv.Value != nil && (tv.Value.ExactString() == "true") == negated {
+					disarm = append(disarm, n.ID)
+				}
+			}
 		}
 	}
 	if len(disarm) == 0 {
@@ -837,6 +872,37 @@ func c03GuardInHelper(p *Prog, r *Report, fi *FuncInfo, cons string) bool {
 
 // conflictIf finds the if statement whose body assigns or returns ErrTxSerialization.
 func conflictIf(info *types.Info, body *ast.BlockStmt) *ast.IfStmt {
+	ifs := conflictIf0(info, body)
+	if ifs == nil {
+		return nil
+	}
+	// the verdict may be kept in a boolean flag: if <guard> { conflict = true } ... if conflict { return Err }
+	if o := objOf(info, ast.Unparen(ifs.Cond)); o != nil {
+		if bt, ok := o.Type().Underlying().(*types.Basic); ok && bt.Kind() == types.Bool {
+			var setter *ast.IfStmt
+			ast.Inspect(body, func(x ast.Node) bool {
+				s, ok := x.(*ast.IfStmt)
+				if !ok || s == ifs {
+					return true
+				}
+				for _, b := range s.Body.List {
+					if as, ok := b.(*ast.AssignStmt); ok && len(as.Lhs) == 1 && len(as.Rhs) == 1 && objOf(info, as.Lhs[0]) == o {
+						if tv, ok := info.Types[as.Rhs[0]]; ok && tv.Value != nil && tv.Value.ExactString() == "true" {
+							setter = s
+						}
+					}
+				}
+				return true
+			})
+			if setter != nil {
+				return setter
+			}
+		}
+	}
+	return ifs
+}
+
+func conflictIf0(info *types.Info, body *ast.BlockStmt) *ast.IfStmt {
 	var ifs *ast.IfStmt
 	ast.Inspect(body, func(x ast.Node) bool {
 		if s, ok := x.(*ast.IfStmt); ok {
